@@ -7,6 +7,7 @@
 -/
 import H8.Props.Common
 import H8.Lemmas.Cost
+import H8.Props.C04H
 set_option linter.unusedSimpArgs false
 namespace H8.Props.C20R
 open H8 H8.Lemmas H8.Props
@@ -24,12 +25,13 @@ local macro "cost_tac" : tactic => `(tactic|
    try (have h3 : (nib op 3 &&& 7).ule 7#8 = true := by (simp only [nib]; bv_decide))
    simp only [unary, atSz1, notProc, negProc, inc, dec, extu, addsSubs, shift, movRn, movImm, movPccSz, movPcc, logicRn, logicBImm,
      logicFlagsSz, logicFlags_ok, LOp.ap, addBRn, addWRn, addLRn, subB, subWRn, subLRn, cmpBRn, cmpWRn, cmpLRn, addBImm, cmpBImm,
-     addxRn, addxImm, aluImmB, addProc8, addProc16, addProc32, subCalc8, subCalc16, subCalc32, addxProc_eq,
+     addxRn, addxImm, aluImmB, bmodRnRn, bmodRnImm, btstRnRn, btstImmRn, btstSet, bstRn, baccRn, readCcr_ok, addProc8, addProc16, addProc32, subCalc8, subCalc16, subCalc32, addxProc_eq,
      readRn, writeRn, bind_ok, pure_ok, get_ok, readRnB_nib, writeRnB_nib,
      readRnW_nib, writeRnW_nib, writeCcr_ite, writeCcr_zero, writeCcr_one, changeCcr_ok, beq_self_eq_true, szL_ne_W, ↓reduceIte,
      Bool.false_eq_true, szB_ne_L, szW_ne_L, iBase] at h
    try (simp only [readRnL_ok _ _ h4, readRnL_ok _ _ h3, writeRnL_ok _ _ _ h4, bind_ok, pure_ok, get_ok, writeCcr_ite, writeCcr_zero,
      writeCcr_one, changeCcr_ok, beq_self_eq_true, szL_ne_W, ↓reduceIte, Bool.false_eq_true, addProc32, subCalc32] at h)
+   try (rw [C04H.writeCcr_val _ _ _ (C04H.bacc_value _ _ _ _)] at h; simp only [bind_ok] at h)
    have hs := costI_state h
    subst hs
    exact ⟨_, h, rfl, rfl⟩))
@@ -459,6 +461,114 @@ theorem cost_XOR_B_IMM (op : BitVec 16) (st st' : Cpu) (c : BitVec 8) (hp : Spec
     (h : logicBImm .xor op st = .ok c st') : ChargedI 1 st c ∧ Spec.Form.mix .XOR_B_IMM = { i := 1 } := by
   refine ⟨?_, rfl⟩
   rw [Spec.pat_XOR_B_IMM] at hp; simp only [Bool.and_eq_true, beq_iff_eq] at hp
+  cost_tac
+
+theorem cost_BSET_RR (op : BitVec 16) (st st' : Cpu) (c : BitVec 8) (hp : Spec.Form.pat .BSET_RR op 0 0 0 0 = true)
+    (h : bmodRnRn .set op st = .ok c st') : ChargedI 1 st c ∧ Spec.Form.mix .BSET_RR = { i := 1 } := by
+  refine ⟨?_, rfl⟩
+  rw [Spec.pat_BSET_RR] at hp; simp only [Bool.and_eq_true, beq_iff_eq] at hp
+  cost_tac
+
+theorem cost_BNOT_RR (op : BitVec 16) (st st' : Cpu) (c : BitVec 8) (hp : Spec.Form.pat .BNOT_RR op 0 0 0 0 = true)
+    (h : bmodRnRn .not_ op st = .ok c st') : ChargedI 1 st c ∧ Spec.Form.mix .BNOT_RR = { i := 1 } := by
+  refine ⟨?_, rfl⟩
+  rw [Spec.pat_BNOT_RR] at hp; simp only [Bool.and_eq_true, beq_iff_eq] at hp
+  cost_tac
+
+theorem cost_BCLR_RR (op : BitVec 16) (st st' : Cpu) (c : BitVec 8) (hp : Spec.Form.pat .BCLR_RR op 0 0 0 0 = true)
+    (h : bmodRnRn .clr op st = .ok c st') : ChargedI 1 st c ∧ Spec.Form.mix .BCLR_RR = { i := 1 } := by
+  refine ⟨?_, rfl⟩
+  rw [Spec.pat_BCLR_RR] at hp; simp only [Bool.and_eq_true, beq_iff_eq] at hp
+  cost_tac
+
+theorem cost_BTST_RR (op : BitVec 16) (st st' : Cpu) (c : BitVec 8) (hp : Spec.Form.pat .BTST_RR op 0 0 0 0 = true)
+    (h : btstRnRn op st = .ok c st') : ChargedI 1 st c ∧ Spec.Form.mix .BTST_RR = { i := 1 } := by
+  refine ⟨?_, rfl⟩
+  rw [Spec.pat_BTST_RR] at hp; simp only [Bool.and_eq_true, beq_iff_eq] at hp
+  cost_tac
+
+theorem cost_BST_R (op : BitVec 16) (st st' : Cpu) (c : BitVec 8) (hp : Spec.Form.pat .BST_R op 0 0 0 0 = true)
+    (h : bstRn false op st = .ok c st') : ChargedI 1 st c ∧ Spec.Form.mix .BST_R = { i := 1 } := by
+  refine ⟨?_, rfl⟩
+  rw [Spec.pat_BST_R] at hp; simp only [Bool.and_eq_true, beq_iff_eq] at hp
+  cost_tac
+
+theorem cost_BIST_R (op : BitVec 16) (st st' : Cpu) (c : BitVec 8) (hp : Spec.Form.pat .BIST_R op 0 0 0 0 = true)
+    (h : bstRn true op st = .ok c st') : ChargedI 1 st c ∧ Spec.Form.mix .BIST_R = { i := 1 } := by
+  refine ⟨?_, rfl⟩
+  rw [Spec.pat_BIST_R] at hp; simp only [Bool.and_eq_true, beq_iff_eq] at hp
+  cost_tac
+
+theorem cost_BSET_I (op : BitVec 16) (st st' : Cpu) (c : BitVec 8) (hp : Spec.Form.pat .BSET_I op 0 0 0 0 = true)
+    (h : bmodRnImm .set op st = .ok c st') : ChargedI 1 st c ∧ Spec.Form.mix .BSET_I = { i := 1 } := by
+  refine ⟨?_, rfl⟩
+  rw [Spec.pat_BSET_I] at hp; simp only [Bool.and_eq_true, beq_iff_eq] at hp
+  cost_tac
+
+theorem cost_BNOT_I (op : BitVec 16) (st st' : Cpu) (c : BitVec 8) (hp : Spec.Form.pat .BNOT_I op 0 0 0 0 = true)
+    (h : bmodRnImm .not_ op st = .ok c st') : ChargedI 1 st c ∧ Spec.Form.mix .BNOT_I = { i := 1 } := by
+  refine ⟨?_, rfl⟩
+  rw [Spec.pat_BNOT_I] at hp; simp only [Bool.and_eq_true, beq_iff_eq] at hp
+  cost_tac
+
+theorem cost_BCLR_I (op : BitVec 16) (st st' : Cpu) (c : BitVec 8) (hp : Spec.Form.pat .BCLR_I op 0 0 0 0 = true)
+    (h : bmodRnImm .clr op st = .ok c st') : ChargedI 1 st c ∧ Spec.Form.mix .BCLR_I = { i := 1 } := by
+  refine ⟨?_, rfl⟩
+  rw [Spec.pat_BCLR_I] at hp; simp only [Bool.and_eq_true, beq_iff_eq] at hp
+  cost_tac
+
+theorem cost_BTST_I (op : BitVec 16) (st st' : Cpu) (c : BitVec 8) (hp : Spec.Form.pat .BTST_I op 0 0 0 0 = true)
+    (h : btstImmRn op st = .ok c st') : ChargedI 1 st c ∧ Spec.Form.mix .BTST_I = { i := 1 } := by
+  refine ⟨?_, rfl⟩
+  rw [Spec.pat_BTST_I] at hp; simp only [Bool.and_eq_true, beq_iff_eq] at hp
+  cost_tac
+
+theorem cost_BOR_R (op : BitVec 16) (st st' : Cpu) (c : BitVec 8) (hp : Spec.Form.pat .BOR_R op 0 0 0 0 = true)
+    (h : baccRn .or op st = .ok c st') : ChargedI 1 st c ∧ Spec.Form.mix .BOR_R = { i := 1 } := by
+  refine ⟨?_, rfl⟩
+  rw [Spec.pat_BOR_R] at hp; simp only [Bool.and_eq_true, beq_iff_eq] at hp
+  cost_tac
+
+theorem cost_BIOR_R (op : BitVec 16) (st st' : Cpu) (c : BitVec 8) (hp : Spec.Form.pat .BIOR_R op 0 0 0 0 = true)
+    (h : baccRn .ior op st = .ok c st') : ChargedI 1 st c ∧ Spec.Form.mix .BIOR_R = { i := 1 } := by
+  refine ⟨?_, rfl⟩
+  rw [Spec.pat_BIOR_R] at hp; simp only [Bool.and_eq_true, beq_iff_eq] at hp
+  cost_tac
+
+theorem cost_BXOR_R (op : BitVec 16) (st st' : Cpu) (c : BitVec 8) (hp : Spec.Form.pat .BXOR_R op 0 0 0 0 = true)
+    (h : baccRn .xor op st = .ok c st') : ChargedI 1 st c ∧ Spec.Form.mix .BXOR_R = { i := 1 } := by
+  refine ⟨?_, rfl⟩
+  rw [Spec.pat_BXOR_R] at hp; simp only [Bool.and_eq_true, beq_iff_eq] at hp
+  cost_tac
+
+theorem cost_BIXOR_R (op : BitVec 16) (st st' : Cpu) (c : BitVec 8) (hp : Spec.Form.pat .BIXOR_R op 0 0 0 0 = true)
+    (h : baccRn .ixor op st = .ok c st') : ChargedI 1 st c ∧ Spec.Form.mix .BIXOR_R = { i := 1 } := by
+  refine ⟨?_, rfl⟩
+  rw [Spec.pat_BIXOR_R] at hp; simp only [Bool.and_eq_true, beq_iff_eq] at hp
+  cost_tac
+
+theorem cost_BAND_R (op : BitVec 16) (st st' : Cpu) (c : BitVec 8) (hp : Spec.Form.pat .BAND_R op 0 0 0 0 = true)
+    (h : baccRn .and op st = .ok c st') : ChargedI 1 st c ∧ Spec.Form.mix .BAND_R = { i := 1 } := by
+  refine ⟨?_, rfl⟩
+  rw [Spec.pat_BAND_R] at hp; simp only [Bool.and_eq_true, beq_iff_eq] at hp
+  cost_tac
+
+theorem cost_BIAND_R (op : BitVec 16) (st st' : Cpu) (c : BitVec 8) (hp : Spec.Form.pat .BIAND_R op 0 0 0 0 = true)
+    (h : baccRn .iand op st = .ok c st') : ChargedI 1 st c ∧ Spec.Form.mix .BIAND_R = { i := 1 } := by
+  refine ⟨?_, rfl⟩
+  rw [Spec.pat_BIAND_R] at hp; simp only [Bool.and_eq_true, beq_iff_eq] at hp
+  cost_tac
+
+theorem cost_BLD_R (op : BitVec 16) (st st' : Cpu) (c : BitVec 8) (hp : Spec.Form.pat .BLD_R op 0 0 0 0 = true)
+    (h : baccRn .ld op st = .ok c st') : ChargedI 1 st c ∧ Spec.Form.mix .BLD_R = { i := 1 } := by
+  refine ⟨?_, rfl⟩
+  rw [Spec.pat_BLD_R] at hp; simp only [Bool.and_eq_true, beq_iff_eq] at hp
+  cost_tac
+
+theorem cost_BILD_R (op : BitVec 16) (st st' : Cpu) (c : BitVec 8) (hp : Spec.Form.pat .BILD_R op 0 0 0 0 = true)
+    (h : baccRn .ild op st = .ok c st') : ChargedI 1 st c ∧ Spec.Form.mix .BILD_R = { i := 1 } := by
+  refine ⟨?_, rfl⟩
+  rw [Spec.pat_BILD_R] at hp; simp only [Bool.and_eq_true, beq_iff_eq] at hp
   cost_tac
 
 end H8.Props.C20R
